@@ -120,6 +120,74 @@ theorem writeAt_step (P : Nat) (hP : 0 < P) (pb : PB) (b : Bytes) (off : Nat) (h
   refine ⟨h.1, h.2, hb, ?_⟩
   rw [h.1]; exact patch_length _ _ _ hfit
 
+/-- the body of writeToVersion2 on the page buffer, for any payload chunks -/
+theorem writeV2PagedWith_spec (P : Nat) (hP : 0 < P) (crc : Bytes → Nat) (attrs first mx : Int) (n : Nat)
+    (chunks : List Bytes) (pb : PB) (hc : Contig P pb.pages) (hb : pb.base = 0) :
+    flat (writeV2PagedWith P crc attrs first mx n chunks pb) = flat pb ++ frameBytes crc attrs first mx n chunks.flatten ∧
+      Contig P (writeV2PagedWith P crc attrs first mx n chunks pb).pages ∧
+      (writeV2PagedWith P crc attrs first mx n chunks pb).base = 0 := by
+  simp only [writeV2PagedWith, frameBytes, hb, Nat.zero_add]
+  generalize hR : chunks.flatten = R
+  generalize hF : flat pb = F
+  -- the header and the payload
+  have h1 := writeAll_spec P hP [i64 0, i32 0, i32 (-1), i8 2, i32 0, i16 attrs, i32 0, i64 0, i64 0, i64 (-1), i16 (-1),
+    i32 (-1), i32 0] pb hc
+  generalize writeAll P pb [i64 0, i32 0, i32 (-1), i8 2, i32 0, i16 attrs, i32 0, i64 0, i64 0, i64 (-1), i16 (-1),
+    i32 (-1), i32 0] = pb1 at h1 ⊢
+  have h2 := writeAll_spec P hP chunks pb1 h1.2.1
+  generalize writeAll P pb1 chunks = pb2 at h2 ⊢
+  rw [hR, h1.1, hF] at h2
+  have hb2 : pb2.base = 0 := by rw [h2.2.2, h1.2.2, hb]
+  have hf2 : flat pb2 = [F, i64 0, i32 0, i32 (-1), i8 2, i32 0, i16 attrs, i32 0, i64 0, i64 0, i64 (-1), i16 (-1), i32 (-1),
+      i32 0].flatten ++ R := by
+    rw [h2.1]; simp only [List.flatten_cons, List.flatten_nil, List.append_nil, List.append_assoc]
+  have hl2 : (flat pb2).length = F.length + (61 + R.length) := by
+    rw [hf2]
+    simp only [List.flatten_cons, List.flatten_nil, List.append_nil, List.length_append, i64_length, i32_length,
+      i16_length, i8_length]
+    omega
+  -- four back-patches
+  have h3 := writeAt_step P hP pb2 (i32 ((n : Int) - 1)) (F.length + 23) h2.2.1 hb2 (by simp; omega)
+  generalize writeAt P pb2 (i32 ((n : Int) - 1)) (F.length + 23) = pb3 at h3 ⊢
+  have h4 := writeAt_step P hP pb3 (i64 first) (F.length + 27) h3.2.1 h3.2.2.1 (by simp; omega)
+  generalize writeAt P pb3 (i64 first) (F.length + 27) = pb4 at h4 ⊢
+  have h5 := writeAt_step P hP pb4 (i64 mx) (F.length + 35) h4.2.1 h4.2.2.1 (by simp; omega)
+  generalize writeAt P pb4 (i64 mx) (F.length + 35) = pb5 at h5 ⊢
+  have h6 := writeAt_step P hP pb5 (i32 (n : Int)) (F.length + 57) h5.2.1 h5.2.2.1 (by simp; omega)
+  generalize writeAt P pb5 (i32 (n : Int)) (F.length + 57) = pb6 at h6 ⊢
+  have hl6 : (flat pb6).length = F.length + (61 + R.length) := by omega
+  have ht : pb6.base + (flat pb6).length - F.length = 61 + R.length := by rw [h6.2.2.1, hl6]; omega
+  rw [ht]
+  -- the checksum region
+  have hs : scan P pb6 (F.length + 21) (F.length + (61 + R.length)) =
+      i16 attrs ++ (i32 ((n : Int) - 1) ++ (i64 first ++ (i64 mx ++
+        (i64 (-1) ++ (i16 (-1) ++ (i32 (-1) ++ (i32 (n : Int) ++ R))))))) := by
+    rw [scan_eq P hP pb6 h6.2.1 _ _ (by omega), h6.2.2.1, Nat.sub_zero, Nat.sub_zero, h6.1, h5.1, h4.1, h3.1, hf2]
+    exact crc_region F R attrs _ _ _ _
+  rw [hs]
+  generalize hC : crc (i16 attrs ++ (i32 ((n : Int) - 1) ++ (i64 first ++
+    (i64 mx ++ (i64 (-1) ++ (i16 (-1) ++ (i32 (-1) ++ (i32 (n : Int) ++ R)))))))) = c
+  -- two more back-patches
+  have h7 := writeAt_step P hP pb6 (i32 ((61 + R.length - 12 : Nat) : Int)) (F.length + 8) h6.2.1 h6.2.2.1 (by simp; omega)
+  generalize writeAt P pb6 (i32 ((61 + R.length - 12 : Nat) : Int)) (F.length + 8) = pb7 at h7 ⊢
+  have h8 := writeAt_step P hP pb7 (u32 c) (F.length + 17) h7.2.1 h7.2.2.1 (by simp; omega)
+  generalize writeAt P pb7 (u32 c) (F.length + 17) = pb8 at h8 ⊢
+  refine ⟨?_, h8.2.1, h8.2.2.1⟩
+  rw [h8.1, h7.1, h6.1, h5.1, h4.1, h3.1, hf2, header_patches]
+  have hlen : 21 + (i16 attrs ++ (i32 ((n : Int) - 1) ++ (i64 first ++
+    (i64 mx ++ (i64 (-1) ++ (i16 (-1) ++ (i32 (-1) ++ (i32 (n : Int) ++ R)))))))).length
+      = 61 + R.length := by simp; omega
+  rw [hlen]
+  simp only [List.flatten_cons, List.flatten_nil, List.append_nil, List.append_assoc]
+
+theorem writeV2_frameBytes (crc : Bytes → Nat) (attrs now : Int) (r0 : PRec) (rs : List PRec) :
+    writeV2 crc attrs now (r0 :: rs) = some (frameBytes crc attrs (effTime now r0) (maxTime now 0 (r0 :: rs)) (r0 :: rs).length
+      (recordsV2 now (effTime now r0) 0 (r0 :: rs))) := rfl
+
+theorem writeV2C_frameBytes (crc : Bytes → Nat) (comp : Bytes → Bytes) (attrs now : Int) (r0 : PRec) (rs : List PRec) :
+    writeV2C crc comp attrs now (r0 :: rs) = some (frameBytes crc attrs (effTime now r0) (maxTime now 0 (r0 :: rs)) (r0 :: rs).length
+      (comp (recordsV2 now (effTime now r0) 0 (r0 :: rs)))) := rfl
+
 /-- **writeToVersion2 through the page buffer = the flat writer.** -/
 theorem writeV2Paged_spec (P : Nat) (hP : 0 < P) (crc : Bytes → Nat) (attrs now : Int) (recs : List PRec) (pb : PB)
     (hc : Contig P pb.pages) (hb : pb.base = 0) (hne : recs ≠ []) :
@@ -128,61 +196,48 @@ theorem writeV2Paged_spec (P : Nat) (hP : 0 < P) (crc : Bytes → Nat) (attrs no
   cases recs with
   | nil => exact absurd rfl hne
   | cons r0 rs =>
-    simp only [writeV2Paged, writeV2, hb, Nat.zero_add]
-    generalize hR : recordsV2 now (effTime now r0) 0 (r0 :: rs) = R
-    generalize hF : flat pb = F
-    -- the header and the records
-    have h1 := writeAll_spec P hP [i64 0, i32 0, i32 (-1), i8 2, i32 0, i16 attrs, i32 0, i64 0, i64 0, i64 (-1), i16 (-1),
-      i32 (-1), i32 0] pb hc
-    generalize writeAll P pb [i64 0, i32 0, i32 (-1), i8 2, i32 0, i16 attrs, i32 0, i64 0, i64 0, i64 (-1), i16 (-1),
-      i32 (-1), i32 0] = pb1 at h1 ⊢
-    have h2 := writeAll_spec P hP (recordChunks now (effTime now r0) 0 (r0 :: rs)) pb1 h1.2.1
-    generalize writeAll P pb1 (recordChunks now (effTime now r0) 0 (r0 :: rs)) = pb2 at h2 ⊢
-    rw [recordChunks_flatten, hR, h1.1, hF] at h2
-    have hb2 : pb2.base = 0 := by rw [h2.2.2, h1.2.2, hb]
-    have hf2 : flat pb2 = [F, i64 0, i32 0, i32 (-1), i8 2, i32 0, i16 attrs, i32 0, i64 0, i64 0, i64 (-1), i16 (-1), i32 (-1),
-        i32 0].flatten ++ R := by
-      rw [h2.1]; simp only [List.flatten_cons, List.flatten_nil, List.append_nil, List.append_assoc]
-    have hl2 : (flat pb2).length = F.length + (61 + R.length) := by
-      rw [hf2]
-      simp only [List.flatten_cons, List.flatten_nil, List.append_nil, List.length_append, i64_length, i32_length,
-        i16_length, i8_length]
-      omega
-    -- four back-patches
-    have h3 := writeAt_step P hP pb2 (i32 (((r0 :: rs).length : Int) - 1)) (F.length + 23) h2.2.1 hb2 (by simp; omega)
-    generalize writeAt P pb2 (i32 (((r0 :: rs).length : Int) - 1)) (F.length + 23) = pb3 at h3 ⊢
-    have h4 := writeAt_step P hP pb3 (i64 (effTime now r0)) (F.length + 27) h3.2.1 h3.2.2.1 (by simp; omega)
-    generalize writeAt P pb3 (i64 (effTime now r0)) (F.length + 27) = pb4 at h4 ⊢
-    have h5 := writeAt_step P hP pb4 (i64 (maxTime now 0 (r0 :: rs))) (F.length + 35) h4.2.1 h4.2.2.1 (by simp; omega)
-    generalize writeAt P pb4 (i64 (maxTime now 0 (r0 :: rs))) (F.length + 35) = pb5 at h5 ⊢
-    have h6 := writeAt_step P hP pb5 (i32 ((r0 :: rs).length : Int)) (F.length + 57) h5.2.1 h5.2.2.1 (by simp; omega)
-    generalize writeAt P pb5 (i32 ((r0 :: rs).length : Int)) (F.length + 57) = pb6 at h6 ⊢
-    have hl6 : (flat pb6).length = F.length + (61 + R.length) := by omega
-    have ht : pb6.base + (flat pb6).length - F.length = 61 + R.length := by rw [h6.2.2.1, hl6]; omega
-    rw [ht]
-    -- the checksum region
-    have hs : scan P pb6 (F.length + 21) (F.length + (61 + R.length)) =
-        i16 attrs ++ (i32 (((r0 :: rs).length : Int) - 1) ++ (i64 (effTime now r0) ++ (i64 (maxTime now 0 (r0 :: rs)) ++
-          (i64 (-1) ++ (i16 (-1) ++ (i32 (-1) ++ (i32 ((r0 :: rs).length : Int) ++ R))))))) := by
-      rw [scan_eq P hP pb6 h6.2.1 _ _ (by omega), h6.2.2.1, Nat.sub_zero, Nat.sub_zero, h6.1, h5.1, h4.1, h3.1, hf2]
-      exact crc_region F R attrs _ _ _ _
-    rw [hs]
-    generalize hC : crc (i16 attrs ++ (i32 (((r0 :: rs).length : Int) - 1) ++ (i64 (effTime now r0) ++
-      (i64 (maxTime now 0 (r0 :: rs)) ++ (i64 (-1) ++ (i16 (-1) ++ (i32 (-1) ++ (i32 ((r0 :: rs).length : Int) ++ R)))))))) = c
-    -- two more back-patches
-    have h7 := writeAt_step P hP pb6 (i32 ((61 + R.length - 12 : Nat) : Int)) (F.length + 8) h6.2.1 h6.2.2.1 (by simp; omega)
-    generalize writeAt P pb6 (i32 ((61 + R.length - 12 : Nat) : Int)) (F.length + 8) = pb7 at h7 ⊢
-    have h8 := writeAt_step P hP pb7 (u32 c) (F.length + 17) h7.2.1 h7.2.2.1 (by simp; omega)
-    generalize writeAt P pb7 (u32 c) (F.length + 17) = pb8 at h8 ⊢
-    refine ⟨pb8, _, rfl, rfl, ?_, h8.2.1, h8.2.2.1⟩
-    rw [h8.1, h7.1, h6.1, h5.1, h4.1, h3.1, hf2, header_patches]
-    have hlen : 21 + (i16 attrs ++ (i32 (((r0 :: rs).length : Int) - 1) ++ (i64 (effTime now r0) ++
-      (i64 (maxTime now 0 (r0 :: rs)) ++ (i64 (-1) ++ (i16 (-1) ++ (i32 (-1) ++ (i32 ((r0 :: rs).length : Int) ++ R)))))))).length
-        = 61 + R.length := by simp; omega
-    rw [hlen]
-    simp only [List.flatten_cons, List.flatten_nil, List.append_nil, List.append_assoc]
+    have h := writeV2PagedWith_spec P hP crc attrs (effTime now r0) (maxTime now 0 (r0 :: rs)) (r0 :: rs).length
+      (recordChunks now (effTime now r0) 0 (r0 :: rs)) pb hc hb
+    rw [recordChunks_flatten] at h
+    exact ⟨_, _, rfl, writeV2_frameBytes crc attrs now r0 rs, h.1, h.2.1, h.2.2⟩
 
-/-- **`RecordSet.WriteTo` on the page buffer**: old content, the size of the batch, the batch. -/
+/-- **the compressed writer through the page buffer**: whatever chunks the compressor writes into the buffer, if they
+add up to `comp records` the buffer ends with the flat compressed writer's bytes -/
+theorem writeV2PagedC_spec (P : Nat) (hP : 0 < P) (crc : Bytes → Nat) (comp : Bytes → Bytes) (chunks : List Bytes)
+    (attrs now : Int) (recs : List PRec) (pb : PB) (hc : Contig P pb.pages) (hb : pb.base = 0) (hne : recs ≠ [])
+    (hch : chunks.flatten = comp (recordsV2 now (firstTime now recs) 0 recs)) :
+    ∃ pb' bytes, writeV2PagedC P crc chunks attrs now recs pb = some pb' ∧ writeV2C crc comp attrs now recs = some bytes ∧
+      flat pb' = flat pb ++ bytes ∧ Contig P pb'.pages ∧ pb'.base = 0 := by
+  cases recs with
+  | nil => exact absurd rfl hne
+  | cons r0 rs =>
+    have h := writeV2PagedWith_spec P hP crc attrs (effTime now r0) (maxTime now 0 (r0 :: rs)) (r0 :: rs).length
+      chunks pb hc hb
+    rw [show chunks.flatten = comp (recordsV2 now (effTime now r0) 0 (r0 :: rs)) from hch] at h
+    exact ⟨_, _, rfl, writeV2C_frameBytes crc comp attrs now r0 rs, h.1, h.2.1, h.2.2⟩
+
+/-- **`RecordSet.WriteTo` on the page buffer**, for any batch writer that appends `bytes`: old content, the size, the batch. -/
+theorem writeSetPagedWith_spec (P : Nat) (hP : 0 < P) (inner : PB → Option PB) (pb : PB)
+    (hc : Contig P pb.pages) (hb : pb.base = 0) (pb2 : PB) (bytes : Bytes)
+    (g1 : inner (write P pb (u32 0)) = some pb2) (g3 : flat pb2 = flat (write P pb (u32 0)) ++ bytes)
+    (g4 : Contig P pb2.pages) (g5 : pb2.base = 0) :
+    ∃ pb', writeSetPagedWith P inner pb = some pb' ∧
+      flat pb' = flat pb ++ (u32 bytes.length ++ bytes) ∧ Contig P pb'.pages ∧ pb'.base = 0 := by
+  have h1 := write_spec P hP pb (u32 0) hc
+  simp only [writeSetPagedWith, g1, hb, Nat.zero_add, g5]
+  rw [h1.1] at g3
+  have hl : (flat pb2).length - (flat pb).length = 4 + bytes.length := by
+    rw [g3]; simp only [List.length_append, u32_length]; omega
+  rw [hl, if_neg (by omega), Nat.add_sub_cancel_left]
+  have h3 := writeAt_step P hP pb2 (u32 bytes.length) (flat pb).length g4 g5 (by
+    rw [g3]; simp only [List.length_append, u32_length]; omega)
+  refine ⟨_, rfl, ?_, h3.2.1, h3.2.2.1⟩
+  rw [h3.1, g3]
+  have e : flat pb ++ u32 0 ++ bytes = [flat pb, u32 0].flatten ++ bytes := by
+    simp only [List.flatten_cons, List.flatten_nil, List.append_nil, List.append_assoc]
+  rw [e, patch_field' bytes _ 1 (u32 bytes.length) _ (by simp) (by simp [fieldLen]) (by simp [offsetOf])]
+  simp only [setAt, List.flatten_cons, List.flatten_nil, List.append_nil, List.append_assoc]
+
 theorem writeSetV2Paged_spec (P : Nat) (hP : 0 < P) (crc : Bytes → Nat) (attrs now : Int) (recs : List PRec) (pb : PB)
     (hc : Contig P pb.pages) (hb : pb.base = 0) (hne : recs ≠ []) :
     ∃ pb' bytes, writeSetV2Paged P crc attrs now recs pb = some pb' ∧ writeV2 crc attrs now recs = some bytes ∧
@@ -190,18 +245,18 @@ theorem writeSetV2Paged_spec (P : Nat) (hP : 0 < P) (crc : Bytes → Nat) (attrs
   have h1 := write_spec P hP pb (u32 0) hc
   obtain ⟨pb2, bytes, g1, g2, g3, g4, g5⟩ := writeV2Paged_spec P hP crc attrs now recs (write P pb (u32 0)) h1.2.1
     (by rw [h1.2.2, hb]) hne
-  simp only [writeSetV2Paged, g1, hb, Nat.zero_add, g5]
-  rw [h1.1] at g3
-  have hl : (flat pb2).length - (flat pb).length = 4 + bytes.length := by
-    rw [g3]; simp only [List.length_append, u32_length]; omega
-  rw [hl, if_neg (by omega), Nat.add_sub_cancel_left]
-  have h3 := writeAt_step P hP pb2 (u32 bytes.length) (flat pb).length g4 g5 (by
-    rw [g3]; simp only [List.length_append, u32_length]; omega)
-  refine ⟨_, bytes, rfl, g2, ?_, h3.2.1, h3.2.2.1⟩
-  rw [h3.1, g3]
-  have e : flat pb ++ u32 0 ++ bytes = [flat pb, u32 0].flatten ++ bytes := by
-    simp only [List.flatten_cons, List.flatten_nil, List.append_nil, List.append_assoc]
-  rw [e, patch_field' bytes _ 1 (u32 bytes.length) _ (by simp) (by simp [fieldLen]) (by simp [offsetOf])]
-  simp only [setAt, List.flatten_cons, List.flatten_nil, List.append_nil, List.append_assoc]
+  obtain ⟨pb', k1, k2, k3, k4⟩ := writeSetPagedWith_spec P hP _ pb hc hb pb2 bytes g1 g3 g4 g5
+  exact ⟨pb', bytes, k1, g2, k2, k3, k4⟩
+
+theorem writeSetV2PagedC_spec (P : Nat) (hP : 0 < P) (crc : Bytes → Nat) (comp : Bytes → Bytes) (chunks : List Bytes)
+    (attrs now : Int) (recs : List PRec) (pb : PB) (hc : Contig P pb.pages) (hb : pb.base = 0) (hne : recs ≠ [])
+    (hch : chunks.flatten = comp (recordsV2 now (firstTime now recs) 0 recs)) :
+    ∃ pb' bytes, writeSetV2PagedC P crc chunks attrs now recs pb = some pb' ∧ writeV2C crc comp attrs now recs = some bytes ∧
+      flat pb' = flat pb ++ (u32 bytes.length ++ bytes) ∧ Contig P pb'.pages ∧ pb'.base = 0 := by
+  have h1 := write_spec P hP pb (u32 0) hc
+  obtain ⟨pb2, bytes, g1, g2, g3, g4, g5⟩ := writeV2PagedC_spec P hP crc comp chunks attrs now recs (write P pb (u32 0)) h1.2.1
+    (by rw [h1.2.2, hb]) hne hch
+  obtain ⟨pb', k1, k2, k3, k4⟩ := writeSetPagedWith_spec P hP _ pb hc hb pb2 bytes g1 g3 g4 g5
+  exact ⟨pb', bytes, k1, g2, k2, k3, k4⟩
 
 end KV.Model.RecordWriter
